@@ -13,7 +13,7 @@ use vh::snapshot::Scratch;
 #[derive(Clone, Debug, Serialize, Deserialize, PartialEq)]
 pub struct Case {
     deps: Vec<String>,
-    /// 0 complete, 1 missing x/y, 2 missing z
+    /// 0 complete, 1 missing x/y, 2 missing z, 3 completely empty map
     map: u8,
     /// source directory relative to the scratch root
     src: String,
@@ -73,13 +73,15 @@ fn run_case(c: &Case) -> (Vec<Viol>, String) {
     std::fs::write(src.join("buildpack.toml"), bptoml).unwrap();
     let p = descriptor_text(&c.deps, &c.os, &c.bp_uri);
     let mut map: BTreeMap<BuildpackId, PathBuf> = BTreeMap::new();
-    if c.map != 1 {
+    if c.map != 1 && c.map != 3 {
         map.insert("x/y".parse().unwrap(), packaged_path(root, "x/y"));
     }
-    if c.map != 2 {
+    if c.map != 2 && c.map != 3 {
         map.insert("z".parse().unwrap(), packaged_path(root, "z"));
     }
-    map.insert("unrelated".parse().unwrap(), packaged_path(root, "unrelated"));
+    if c.map != 3 {
+        map.insert("unrelated".parse().unwrap(), packaged_path(root, "unrelated"));
+    }
     if let Some((pd, pos, puri)) = &c.prev {
         std::fs::write(src.join("package.toml"), descriptor_text(pd, pos, puri)).unwrap();
         let _ = package_composite_buildpack(&src, &dst, &map);
@@ -88,7 +90,7 @@ fn run_case(c: &Case) -> (Vec<Viol>, String) {
     let r = package_composite_buildpack(&src, &dst, &map);
     let replay = json!({"case": c});
     let mut v: Vec<Viol> = Vec::new();
-    let missing = c.deps.iter().any(|d| (d == "libcnb:x/y" && c.map == 1) || (d == "libcnb:z" && c.map == 2));
+    let missing = c.deps.iter().any(|d| (d == "libcnb:x/y" && (c.map == 1 || c.map == 3)) || (d == "libcnb:z" && (c.map == 2 || c.map == 3)));
     let outcome;
     match r {
         Err(e) => {
@@ -240,7 +242,7 @@ pub fn run(args: &Args) {
     }
     let srcs = ["s", "deep/er/s"];
     for t in &tuples {
-        for map in 0..3u8 {
+        for map in 0..4u8 {
             for (i, src) in srcs.iter().enumerate() {
                 // platform and buildpack uri rotate with the tuple (full product in thorough)
                 let oss = [None, Some("linux".to_string()), Some("windows".to_string())];
@@ -303,7 +305,7 @@ pub fn run(args: &Args) {
     rep.cov("repackaging_pairs", pairs);
     rep.cov("dependency_tuples", tuples.len() as u64);
     rep.cov("distinct_outcomes", json!(outcomes));
-    rep.cov("rule", "package.toml documents built from all ordered dependency tuples (repetition allowed) over 7 URI kinds x id->path maps {complete, missing x/y, missing z} x 2 source locations x platform x 7 buildpack uris (., ./, relative, parent-relative, absolute, docker, urn), plus every ordered pair of 18 descriptors packaged one after the other into the same destination (the second result must be what a fresh destination gives), plus every relative path of <= k segments over {a, ., .., empty} with/without leading ./ and trailing /, run through the real package_composite_buildpack; the written file is re-read generically and compared with the reference (lexical normalisation). non-trivial = at least one dependency");
+    rep.cov("rule", "package.toml documents built from all ordered dependency tuples (repetition allowed) over 7 URI kinds x id->path maps {complete, missing x/y, missing z, empty} x 2 source locations x platform x 7 buildpack uris (., ./, relative, parent-relative, absolute, docker, urn), plus every ordered pair of 18 descriptors packaged one after the other into the same destination (the second result must be what a fresh destination gives), plus every relative path of <= k segments over {a, ., .., empty} with/without leading ./ and trailing /, run through the real package_composite_buildpack; the written file is re-read generically and compared with the reference (lexical normalisation). non-trivial = at least one dependency");
     rep.cov("bound", json!({"max_tuple_len": max_len, "max_segments": max_segs}));
     rep.cov("exhaustive", true);
     rep.sample(json!(cases[cases.len() / 3]));
